@@ -19,6 +19,10 @@ def run(ctx):
         k = ctx.rng.randint(1, 4)
         base = ctx.rng.randint(28, 60)
         cases.append({"kind": "fingering", "ti": ti, "notes": [base + ctx.rng.randint(0, 14) for _ in range(k)], "maxdist": ctx.rng.choice([3, 4, 4, 6])})
+    # chords in which one note's name begins another's (E and Eb in C E G Bb Eb), on six- and seven-string guitars and a bass
+    for named in (["Guitar", "Standard"], ["Guitar", "Drop D"], ["Bass guitar", "Standard 6"]):
+        for ch in ("Chendrix", "C7b12", "Ahendrix", "Ehendrix"):
+            cases.append({"kind": "chord", "ti": 0, "named": named, "chord": ch, "maxdist": 4, "maxfingers": 4})
     for ti in (3, 11, 20, 33, 47):
         for ch in (CHORDS[:6] if q and ti != 33 else CHORDS):
             cases.append({"kind": "chord", "ti": ti, "chord": ch, "maxdist": 4, "maxfingers": 4})
